@@ -522,6 +522,16 @@ impl<Sink: TokenSink> XmlTokenizer<Sink> {
         assert!(c.is_some());
     }
 
+    // Discard the character returned by `peek` without input stream preprocessing, so that it can
+    // be un-consumed again verbatim.
+    fn discard_raw_char(&self, input: &BufferQueue) {
+        if self.reconsume.get() {
+            self.reconsume.set(false);
+        } else {
+            input.next();
+        }
+    }
+
     fn unconsume(&self, input: &BufferQueue, buf: StrTendril) {
         input.push_front(buf);
     }
